@@ -659,7 +659,170 @@ func TestC13Real(t *testing.T) {
 	})
 }
 
+// AdapterCase: what witnessAdapter.GetLatestCheckpoint reports when the storage read
+// under it behaves in a given way.
+type AdapterCase struct {
+	Held    int    `json:"held"`    // size the witness holds (-1 nothing)
+	Point   string `json:"point"`   // "" | ReadOps | Read.GetLatest
+	Code    string `json:"code"`    // plain | unavailable | internal | deadline
+	Storage string `json:"storage"` // mem | sql
+	N       int    `json:"n"`       // size the log then publishes (for the feed through the adapter)
+}
+
+type recAdapter struct {
+	inner feeder.Witness
+	mu    sync.Mutex
+	calls []call
+}
+
+func (r *recAdapter) GetLatestCheckpoint(ctx context.Context, logID string) ([]byte, error) {
+	b, err := r.inner.GetLatestCheckpoint(ctx, logID)
+	r.mu.Lock()
+	r.calls = append(r.calls, call{Kind: "G", Ret: b, Failed: err != nil})
+	r.mu.Unlock()
+	return b, err
+}
+
+func (r *recAdapter) Update(ctx context.Context, logID string, oldSize uint64, newCP []byte, proof [][]byte) ([]byte, error) {
+	b, err := r.inner.Update(ctx, logID, oldSize, newCP, proof)
+	r.mu.Lock()
+	r.calls = append(r.calls, call{Kind: "U", Old: oldSize, Failed: err != nil})
+	r.mu.Unlock()
+	return b, err
+}
+
+func runAdapterCase(c *AdapterCase) (bool, []string, error) {
+	hc := &vlib.HistCase{Prop: "C13", Storage: c.Storage, Seed: "A", Logs: []vlib.LogSpec{{Origin: feedOrigin, KeyLabel: "log0", KeyName: "logkey"}}, WKeys: vlib.ProdWKeys}
+	e := vlib.NewEnv(hc)
+	t, closer, err := e.NewInstrumentedWitness()
+	if err != nil {
+		return false, nil, fmt.Errorf("harness: %v", err)
+	}
+	defer closer()
+	key, id, main := e.LogKeys[0], e.LogIDs[0], e.Branches[0]
+	if c.Held >= 0 {
+		if _, err := t.W.Update(context.Background(), id, 0, cpBytes(key, main, c.Held), nil); err != nil {
+			return false, nil, fmt.Errorf("harness: plant: %v", err)
+		}
+	}
+	wa := witnessAdapter{w: t.W}
+	cls := fmt.Sprintf("adapter:held=%v,fault=%q", c.Held >= 0, c.Point)
+	// 1. the adapter's own answer
+	if c.Point != "" {
+		t.IP.Arm(vlib.FaultSpec{Point: c.Point, Code: c.Code})
+	}
+	b, gerr := wa.GetLatestCheckpoint(context.Background(), id)
+	fired := t.IP.FiredFaults()
+	t.IP.Disarm()
+	switch {
+	case len(fired) > 0:
+		if gerr == nil {
+			return true, []string{cls}, fmt.Errorf("the storage read failed (%v) but the adapter reported no error (%d bytes): the feeder will take this for 'no checkpoint yet'", fired, len(b))
+		}
+		if errors.Is(gerr, os.ErrNotExist) {
+			return true, []string{cls}, fmt.Errorf("the storage read failed (%v) and the adapter reported 'does not exist': a read error is treated as first use", fired)
+		}
+	case c.Held < 0:
+		if !errors.Is(gerr, os.ErrNotExist) {
+			return true, []string{cls}, fmt.Errorf("witness holds nothing: adapter returned (%d bytes, %v), want os.ErrNotExist", len(b), gerr)
+		}
+	default:
+		want, _ := t.W.GetCheckpoint(id)
+		if gerr != nil || !bytes.Equal(b, want) {
+			return true, []string{cls}, fmt.Errorf("witness holds size %d: adapter returned (%d bytes, %v)", c.Held, len(b), gerr)
+		}
+	}
+	// 2. a feed cycle through the adapter with one transient read failure: the feeder must
+	//    never present a known log as first use
+	rec := &recAdapter{inner: wa}
+	published := cpBytes(key, main, c.N)
+	armed := c.Point != ""
+	opts := feeder.FeedOpts{
+		LogID: id, LogOrigin: feedOrigin, LogSigVerifier: key.Verifier(), Witness: rec,
+		FetchCheckpoint: func(ctx context.Context) ([]byte, error) {
+			if armed {
+				armed = false
+				t.IP.Arm(vlib.FaultSpec{Point: c.Point, Code: c.Code}) // hits the read of the first attempt only
+			}
+			return published, nil
+		},
+		FetchProof: func(ctx context.Context, from, to log.Checkpoint) ([][]byte, error) {
+			if from.Size == 0 {
+				return [][]byte{}, nil
+			}
+			return main.Consistency(from.Size, to.Size), nil
+		},
+	}
+	ctx, cancel := context.WithTimeout(context.Background(), 5*time.Second)
+	defer cancel()
+	_, ferr := feeder.FeedOnce(ctx, opts)
+	t.IP.Disarm()
+	for _, cl := range rec.calls {
+		if cl.Kind == "U" && c.Held > 0 && cl.Old == 0 {
+			return true, []string{cls}, fmt.Errorf("after a failed read the feeder asked the witness (holding size %d) for an update with old size 0: an unjustified first-use step", c.Held)
+		}
+	}
+	if c.Held >= 0 && c.Held <= c.N && !(c.Held == 0 && c.N > 0) && ferr != nil {
+		return true, []string{cls}, fmt.Errorf("one transient read failure, honest log %d -> %d: FeedOnce failed: %v", c.Held, c.N, ferr)
+	}
+	return true, []string{cls}, nil
+}
+
+func TestC13Adapter(t *testing.T) {
+	st := vlib.StatsFor("C13", "adapter", "exhaustive: witnessAdapter over a real witness whose storage read is made to fail at {ReadOps, Read.GetLatest} with {plain, Unavailable, Internal, DeadlineExceeded} errors, witness holding {nothing, 0, 3, 9}, mem+sql: the adapter must report an error that is not 'does not exist', and a feed cycle with that one transient failure must never present the log as first use and must succeed; non-trivial = a fault was injected while the witness held a checkpoint")
+	var cases []*AdapterCase
+	for _, storage := range []string{"mem", "sql"} {
+		for _, held := range []int{-1, 0, 3, 9} {
+			for _, point := range []string{"", vlib.PReadOps, vlib.PReadGet} {
+				for _, code := range []string{"plain", "unavailable", "internal", "deadline"} {
+					if point == "" && code != "plain" {
+						continue
+					}
+					cases = append(cases, &AdapterCase{Held: held, Point: point, Code: code, Storage: storage, N: 12})
+				}
+			}
+		}
+	}
+	// the feed cycle with a transient failure sleeps in the real back-off: run concurrently
+	type res struct {
+		nt  bool
+		cl  []string
+		err error
+	}
+	results := make([]res, len(cases))
+	var wg sync.WaitGroup
+	for i, c := range cases {
+		wg.Add(1)
+		go func(i int, c *AdapterCase) {
+			defer wg.Done()
+			nt, cl, err := runAdapterCase(c)
+			results[i] = res{nt, cl, err}
+		}(i, c)
+	}
+	wg.Wait()
+	for i, c := range cases {
+		b, _ := json.Marshal(c)
+		st.Record(string(b), results[i].nt && c.Point != "" && c.Held >= 0, results[i].cl, vlib.SampleOf(c))
+	}
+	for i, c := range cases {
+		if err := results[i].err; err != nil {
+			b, _ := json.Marshal(c)
+			vlib.SaveFailure("C13", "adapter", c, err)
+			t.Fatalf("C13 violated: %v (case %s)", err, b)
+		}
+	}
+	st.SetExhaustive(true)
+}
+
 func init() {
+	vlib.Replayers["C13/adapter"] = func(raw json.RawMessage) error {
+		var c AdapterCase
+		if err := json.Unmarshal(raw, &c); err != nil {
+			return err
+		}
+		_, _, err := runAdapterCase(&c)
+		return err
+	}
 	r := func(raw json.RawMessage) error {
 		var c FeedCase
 		if err := json.Unmarshal(raw, &c); err != nil {
